@@ -51,7 +51,7 @@ CONSTANTS AMax,        \* interval end points a,b in -AMax..AMax, a # b
           NestVariant, \* "local" (correct) | "reread" | "scratch" (deviating)
           BlockVariant, \* "ceil" (covers every row) | "floor" (deviating)
           ScaleFull,   \* TRUE: the longer list of big grids
-          NThr, ThrNpts, ThrVariant,   \* threads, their point counts, "private" | "snap" | "late" (deviating)
+          NThr, ThrNpts, ThrVariant,   \* threads, their point counts, "private" | "snap" | "late" (deviating) | "locked" (late + lock)
           DoExport
 
 VARIABLES phase, c, s, m, last
@@ -347,6 +347,7 @@ HStart == /\ phase = "thr"
           /\ \E t \in 1..NThr : \E kind \in Kinds : \E arg \in ThrNpts \cup {QNone} :
                /\ c.pc[t] = "idle"
                /\ (t > 1 => c.pc[t - 1] # "idle")                            \* threads are interchangeable: start them in order
+               /\ (HVar = "locked" => \A u \in 1..NThr : c.pc[u] # "configured")   \* the lock: this interleaving is not a behaviour
                /\ (arg = QNone => (c.target # "qgauss" /\ c.ctor # QNone))   \* a point count is always available
                /\ (c.target = "shared" => arg \in {QNone, c.ctor})            \* read-only use of the shared object
                /\ m' = ThrMechStart(m, arg, HVar)
